@@ -11,7 +11,7 @@ import json as _json
 
 def rand_edge(rng, into_sink, blocking_ends):
     kinds = ["buffer", "buffer", "fleet"]
-    if not into_sink and blocking_ends: kinds += ["cbelt", "cbelt", "slot"]
+    if not into_sink and blocking_ends: kinds += ["cbelt", "cbelt", "slot", "slot"]
     k = rng.choice(kinds)
     if k == "buffer":
         return dict(kind="buffer", cap=rng.choice([1, 2, 3]), delay=rng.choice([0, 1, 2]), mode=rng.choice(["FIFO", "FIFO", "LIFO"]))
@@ -19,9 +19,11 @@ def rand_edge(rng, into_sink, blocking_ends):
         return dict(kind="fleet", cap=rng.choice([2, 3, 4]), delay=rng.choice([2, 4, 8]), transit=rng.choice([0, 1, 2]))
     if k == "cbelt":
         if rng.random() < 0.4:      # non-dyadic geometry: float paths (the 1e-5 tolerance, ceil of inexact quotients)
-            return dict(kind="cbelt", length=rng.choice([2, 3, 5]), ilen=rng.choice([1, 0.5]), speed=rng.choice([5.76, 3.0, 0.7, 1.3]),
+            return dict(kind="cbelt", length=rng.choice([2, 3, 4, 5]), ilen=rng.choice([1, 0.5, 0.5, 0.7, 0.8, 0.3]), speed=rng.choice([5.76, 3.0, 0.7, 1.3]),
                         acc=rng.choice([0, 1]))
         return dict(kind="cbelt", cap=rng.choice([2, 3, 4, 5]), p1=rng.choice([1, 2, 4]), acc=rng.choice([0, 1]))
+    if rng.random() < 0.5:          # real-valued (non-dyadic) slot delay: float paths of the entry-slot gate and the travel timers
+        return dict(kind="slot", cap=rng.choice([2, 3, 5]), fdelay=rng.choice([0.1, 0.3, 0.3, 0.7, 0.35]), acc=rng.choice([0, 1]))
     return dict(kind="slot", cap=rng.choice([2, 3, 4]), delay=rng.choice([1, 2]), acc=rng.choice([0, 1]))
 
 def gen_mixed(rng):
@@ -43,6 +45,8 @@ def gen_mixed(rng):
                pol=[rng.choice(["FIRST_AVAILABLE", "ROUND_ROBIN", "RANDOM"]) for _ in range(nm)],
                second_source=rng.random() < 0.45, extra_first=rng.random() < 0.6, horizon=rng.choice([40, 80, 120]), rseed=rng.randrange(10 ** 6))
     if not src_blocking and edges[0]["kind"] in ("cbelt", "slot"): edges[0] = dict(kind="buffer", cap=2, delay=0, mode="FIFO")
+    if edges[0].get("fdelay", 0) >= 0.3 and rng.random() < 0.8:
+        cfg["iat"] = [rng.choice([1, 2]) for _ in range(rng.randrange(1, 3))]     # a space request is always waiting when the entry slot frees
     return cfg
 
 def _statrepr(x):
@@ -76,7 +80,7 @@ def build_and_run(cfg):
         elif c["kind"] == "cbelt" and "speed" in c:
             e = CBelt(env, f"E{i}", conveyor_length=c["length"], speed=c["speed"], item_length=c["ilen"], accumulating=c["acc"])
         elif c["kind"] == "cbelt": e = CBelt(env, f"E{i}", conveyor_length=c["cap"], speed=8.0 / c["p1"], item_length=1, accumulating=c["acc"])
-        else: e = SBelt(env, f"E{i}", capacity=c["cap"], delay=t2f(c["delay"]), accumulating=c["acc"])
+        else: e = SBelt(env, f"E{i}", capacity=c["cap"], delay=(c["fdelay"] if "fdelay" in c else t2f(c["delay"])), accumulating=c["acc"])
         op, og = e.put, e.get
         def put(ev, item, _op=op, _i=i):
             r = _op(ev, item); log.append((tt(env.now), _i, "put", str(item.id))); return r
@@ -176,11 +180,14 @@ def edge_flow_judges(cfg, log):
             seq.append((t, "put" if k == "put" else "get", iid))
         if kind == "buffer": cap, lag = c["cap"], t2f(c["delay"])
         elif kind == "fleet": cap, lag = c["cap"], 2 * t2f(c["transit"])
-        elif kind == "slot": cap, lag = c["cap"], c["cap"] * t2f(c["delay"])
-        elif "speed" in c: cap, lag = int(c["length"] / c["ilen"]), c["length"] / c["speed"]
+        elif kind == "slot": cap, lag = c["cap"], c["cap"] * (c["fdelay"] if "fdelay" in c else t2f(c["delay"]))
+        elif "speed" in c:
+            from fractions import Fraction
+            cap = int(Fraction(str(c["length"])) / Fraction(str(c["ilen"])))       # whole items that fit: floor(L / l), exactly
+            lag = c["length"] / c["speed"]
         else: cap, lag = c["cap"], c["cap"] * t2f(c["p1"])
         gap = None
-        if kind == "slot": gap = t2f(c["delay"])
+        if kind == "slot": gap = c["fdelay"] if "fdelay" in c else t2f(c["delay"])
         elif kind == "cbelt":
             # the spacing test of the library uses the length of the ITEM (one length per factory, see build_and_run)
             ilens = [x["ilen"] for x in cfg["edges"] if "ilen" in x]
@@ -195,7 +202,10 @@ def edge_flow_judges(cfg, log):
                     V.append(("C02", "flow-dup-put", f"edge {i} ({kind}): item {iid} put at {t} while it is still inside")); break
                 inside[iid] = t; order.append(iid)
                 if len(inside) > cap:
-                    V.append(("C01", "flow-capacity", f"edge {i} ({kind}, capacity {cap}) holds {len(inside)} items at t={t}")); break
+                    V.append(("C01", "flow-capacity", f"edge {i} ({kind}, capacity {cap}) holds {len(inside)} items at t={t}"))
+                    if kind in ("slot", "cbelt"):      # "never more than capacity items are on it" is part of C12 as well
+                        V.append(("C12", "flow-capacity", f"edge {i} ({kind}, capacity {cap}) holds {len(inside)} items at t={t}"))
+                    break
                 if gap is not None and last_put is not None and t - last_put < gap - EPS:
                     V.append(("C12", "flow-spacing", f"edge {i} ({kind}): items entered at {last_put} and {t}, less than one item length of travel ({gap}) apart")); break
                 last_put = t
@@ -204,13 +214,30 @@ def edge_flow_judges(cfg, log):
                     V.append(("C02", "flow-get-unknown", f"edge {i} ({kind}): item {iid} retrieved at {t} but it is not inside (never put, or retrieved twice)")); break
                 if t - inside[iid] < lag - EPS:
                     p_ = {"buffer": "C11", "fleet": "C14"}.get(kind, "C12")
-                    V.append((p_, "flow-early", f"edge {i} ({kind}): item {iid} put at {inside[iid]} retrieved at {t}, earlier than the minimum {lag} after it entered")); break
+                    rule_ = "flow-early"
+                    if kind == "cbelt" and "speed" in c and t - inside[iid] >= c["ilen"] * cap / c["speed"] - EPS:
+                        # known finding KF-D31: the code's travel time is item_length * capacity / speed, shorter than
+                        # conveyor_length / speed when the item length does not divide the belt length
+                        rule_ = "flow-early-short-belt"
+                    V.append((p_, rule_, f"edge {i} ({kind}): item {iid} put at {inside[iid]} retrieved at {t}, earlier than the minimum {lag} after it entered")); break
                 # the destination is machine i (edge i feeds ms[i]); with one worker thread its retrievals are sequential, each
                 # right after its grant, so the order of the gets is the order in which the belt offered the items
                 single = i < cfg["nm"] and cfg["wc"][i] == 1
                 if kind in ("slot", "cbelt") and single and order and order[0] != iid:
                     V.append(("C12", "flow-order", f"edge {i} ({kind}{' accumulating' if c.get('acc') else ''}): item {iid} retrieved at {t} before item {order[0]} that entered earlier")); break
                 del inside[iid]; order.remove(iid)
+        # C04 seen from outside, slotted conveyor fed by the blocking source S0 whose inter-arrival times never exceed the slot
+        # delay: a space request is then waiting whenever the entry slot frees, so the next item enters exactly one slot delay
+        # after the previous one unless the belt was full at that instant
+        if kind == "slot" and i == 0 and cfg.get("src_blocking") and not cfg.get("second_source_into_e0") \
+                and max(t2f(x) for x in cfg["iat"]) <= gap + EPS:
+            puts = [t for (t, k, iid) in seq if k == "put"]
+            for a_, b_ in zip(puts, puts[1:]):
+                due = a_ + gap
+                occ = sum(1 for (t, k, _) in seq if k == "put" and t <= a_ + EPS) - sum(1 for (t, k, _) in seq if k == "get" and t < due - EPS)
+                if occ < cap and b_ > due + 1e-6:
+                    V.append(("C04", "flow-late-admission", f"edge {i} (slot, delay {gap}, capacity {cap}): an item entered at {a_}, the entry slot was free again at "
+                                     f"{due} with {occ} items on the belt and the blocking source waiting, but the next item entered only at {b_}")); break
     return V
 
 def digest(r):
